@@ -33,6 +33,8 @@ abbrev DRow := List (String × DV)
 inductive DErr where
   | runtime
   | syntax
+  /-- `Error::Other` with any other text (ExpandIter: "Variable … is not a node") -/
+  | other
   | limit (k : LimitKind)
   deriving DecidableEq, Repr
 
